@@ -222,3 +222,109 @@ def evaluate(ctx, cases, impl, fmins):
         ok, why = matrix_equal(mdata, st["data"], data_exact) if c.get("prior") != "float32" else (True, "")   # float32 data: checked by the additive oracle
         if not ok:
             ctx.mismatch("signal %d data after: %s" % (k, why), dict(c, signals=[s]))
+
+
+# ---------------------------------------------------------------- direct oracle: the property statement in exact rationals
+def _fp(spec):
+    k = spec["kind"]
+    if k == "box":
+        w = Fraction(spec["w"])
+        return lambda f, fc: Fraction(1) if abs(f - fc) <= w / 2 else Fraction(0)
+    if k == "tri":
+        w = Fraction(spec["w"])
+        return lambda f, fc: max(Fraction(0), 1 - abs(f - fc) / w)
+    a = Fraction(spec["a"])
+    return lambda f, fc: 1 / (1 + a * (f - fc) ** 2)
+
+
+def _fun(spec):
+    coef = [Fraction(x) for x in spec["coef"]]
+    return lambda x: sum(cf * x ** k for k, cf in enumerate(coef))
+
+
+def spec_matrix(c, fmin, s):
+    """The documented value of every pixel (Fractions), or an error name.  Written from the property text:
+    t_profile(t_i) * f_profile(f_j, path(t_i)) * bandpass(f_j), averaged over the sub-sample grids when
+    integration / smearing are requested; zero outside the bounding range."""
+    T, F = c["T"], c["F"]
+    df, dt, fmin = Fraction(c["df"]), Fraction(c["dt"]), Fraction(fmin)
+    o = s.get("opts", {})
+    tsub, fsub, nsm = o.get("t_sub", 10), o.get("f_sub", 10), o.get("n_smear", 10)
+    smear = o.get("smear", False)
+    teff = T + (1 if smear else 0)
+
+    def rhe(q):
+        fl = math.floor(q); r = q - fl
+        return fl if r < Fraction(1, 2) else fl + 1 if r > Fraction(1, 2) else (fl if fl % 2 == 0 else fl + 1)
+    if s.get("brange") is None:
+        lo, hi = 0, F
+    else:
+        i0 = rhe((Fraction(s["brange"][0]) - fmin) / df); i1 = rhe((Fraction(s["brange"][1]) - fmin) / df)
+        lo = min(max(i0, 0), F); hi = max(min(max(i1, 0), F), lo)
+
+    def values(spec, n, integrate):
+        k = spec["kind"]
+        if k == "poly":
+            f = _fun(spec)
+            if integrate:
+                return [sum(f((i * tsub + m) * (dt / tsub)) for m in range(tsub)) / tsub for i in range(n)]
+            return [f(i * dt) for i in range(n)]
+        if k in ("arr", "list"):
+            if len(spec["vals"]) != n:
+                return "ValueError"
+            return [Fraction(v) for v in spec["vals"]]
+        return [Fraction(spec["v"])] * n
+    tv = values(s["tprof"], T, o.get("integrate_t", False))
+    pv = values(s["path"], teff, o.get("integrate_path", False))
+    if tv == "ValueError" or pv == "ValueError":
+        return "ValueError"
+    bp = s.get("bp")
+    ncols = hi - lo
+    if bp is not None and bp["kind"] in ("arr", "list") and len(bp["vals"]) != ncols * (fsub if o.get("integrate_f") else 1):
+        return "ValueError"
+    fp = _fp(s["fprof"])
+
+    def bval(f, k):
+        if bp is None:
+            return Fraction(1)
+        if bp["kind"] == "poly":
+            return _fun(bp)(f)
+        if bp["kind"] == "scal":
+            return Fraction(bp["v"])
+        return Fraction(bp["vals"][k])
+
+    def pix(i, f, k):
+        if smear:
+            dp = (pv[i + 1] - pv[i]) / nsm
+            return sum(tv[i] * fp(f, pv[i] + m * dp) / nsm * bval(f, k) for m in range(nsm))
+        return tv[i] * fp(f, pv[i]) * bval(f, k)
+    out = [[Fraction(0)] * F for _ in range(T)]
+    for i in range(T):
+        for j in range(lo, hi):
+            if o.get("integrate_f"):
+                f0 = fmin + lo * df
+                out[i][j] = sum(pix(i, f0 + ((j - lo) * fsub + m) * (df / fsub), (j - lo) * fsub + m) for m in range(fsub)) / fsub
+            else:
+                out[i][j] = pix(i, fmin + j * df, j - lo)
+    return out
+
+
+def check_spec(ctx, cases, impl, fmins, key="pixel-formula"):
+    """compare what add_signal returned with the documented pixel values (exactly where doubles are exact)"""
+    for c, r, fmin in zip(cases, impl, fmins):
+        for k, (s, st) in enumerate(zip(c["signals"], r["steps"])):
+            want = spec_matrix(c, fmin, s)
+            if want == "ValueError":
+                if st["err"] != "ValueError":
+                    ctx.impl_violation("bad-input-accepted", "signal %d: a wrong-length array was not rejected with ValueError (%s)" % (k, st["err"] or "ok"), dict(c, signals=[s]))
+                continue
+            if st["err"] is not None:
+                continue       # reported elsewhere (unexpected exceptions)
+            exact = is_exact(c, s)
+            wm = [[(x.numerator, x.denominator) for x in row] for row in want]
+            ok, why = matrix_equal(wm, st["ret"], exact)
+            if not ok:
+                o = s.get("opts", {})
+                ctx.impl_violation(key, "signal %d: returned array differs from the documented value (%s); options %s, forms %s/%s/%s, profile %s"
+                                   % (k, why, {kk: v for kk, v in o.items() if v}, s["path"]["kind"], s["tprof"]["kind"], (s.get("bp") or {"kind": "none"})["kind"],
+                                      s["fprof"]["kind"]), dict(c, _fmin=fmin, signals=[s]))
